@@ -22,6 +22,9 @@ package sqlcrud
 //@   modifies *
 //@   loop query.Inputs.1 index m
 //@   loop query.Inputs.1 invariant signature == paramsOf(ctx, contents(query.Inputs), m) && argsSelect == argsOf(contents(query.Inputs), m)
+//@   -- same composition order as generator/sql: table names first, on the query as written; enum placeholders last
+//@   callarg (github.com/benoitkugler/gomacro/generator.TableNameReplacer).Replace@1 0 query.Query
+//@   callarg github.com/benoitkugler/gomacro/generator.ReplaceEnums@1 1 res_Replace_1
 //@   callarg fmt.Sprintf@1 1 match.VarName
 //@   callarg fmt.Sprintf@1 2 ctx.typeName(match.Type)
 //@   callarg fmt.Sprintf@2 1 match.VarName
